@@ -268,38 +268,37 @@ class GrandCanonicalCriteria(BaseCriteria):
         mass = context.exchange_atoms.get_masses().sum()
         particle_delta = context.particle_delta
 
-        volume = context.accessible_volume**particle_delta
+        # the prefactor V**delta * N!/(N+delta)! * wavelength**(-3*delta) is accumulated as
+        # its logarithm: V**delta and wavelength**(-3*delta) leave the range of a float
+        # (`**` raises OverflowError, or the product underflows to 0) long before the
+        # acceptance ratio does, e.g. at very low or very high temperature
+        log_prefactor = particle_delta * math.log(context.accessible_volume)
 
-        factorial_term = 1
         if particle_delta > 0:
             for i in range(
                 number_of_exchange_particles + 1,
                 number_of_exchange_particles + particle_delta + 1,
             ):
-                factorial_term /= i
+                log_prefactor -= math.log(i)
         elif particle_delta < 0:
             for i in range(
                 number_of_exchange_particles + particle_delta + 1,
                 number_of_exchange_particles + 1,
             ):
-                factorial_term *= i
+                # deleting more particles than the reservoir holds is never accepted
+                log_prefactor = (
+                    log_prefactor + math.log(i) if i > 0 else -math.inf
+                )
 
-        debroglie_wavelength = (
-            math.sqrt(
-                _hplanck**2
-                / (2 * np.pi * mass * kB * context.temperature / _Nav * 1e-3 * _e)
-            )
-            * 1e10
-        ) ** (-3 * particle_delta)
+        log_debroglie_wavelength = 0.5 * (
+            math.log(_hplanck**2 / (2 * np.pi * mass * kB / _Nav * 1e-3 * _e))
+            - math.log(context.temperature)
+        ) + math.log(1e10)
 
-        prefactor = volume * factorial_term * debroglie_wavelength
+        log_prefactor -= 3 * particle_delta * log_debroglie_wavelength
+
         exponential = (
             particle_delta * context.chemical_potential - energy_difference
         ) / (context.temperature * kB)
-
-        # log space: exp(exponential) may overflow (or underflow) while the prefactor is
-        # tiny (or huge); a vanishing prefactor (deletion from an empty reservoir) is
-        # never accepted
-        log_prefactor = math.log(prefactor) if prefactor > 0 else -math.inf
 
         return _metropolis(context.rng, exponential + log_prefactor)
